@@ -94,6 +94,11 @@ func (s *indirectIssuanceChainService) BuildLogLeaf(ctx context.Context, chain [
 // backend is enabled and the type of LogLeaf.ExtraData contains any hash
 // (e.g. PrecertChainEntryHash, CertificateChainHash).
 func (s *indirectIssuanceChainService) FixLogLeaf(ctx context.Context, leaf *trillian.LogLeaf) error {
+	if leaf == nil {
+		// Nothing to fix: the backend omits the leaf when its tree is smaller
+		// than the request needs, and callers check for a missing leaf themselves.
+		return nil
+	}
 	// As the struct stored in leaf.ExtraData is unknown, the only way is to try to unmarshal with each possible struct.
 	// Try to unmarshal with ct.PrecertChainEntryHash struct.
 	var precertChainHash ct.PrecertChainEntryHash
